@@ -485,3 +485,61 @@ package sio
 //@   ensures len(s.sendBuffer) == 0 [C15.buf.flush]
 //@   ensures old(len(s.sendBuffer)) > 0 ==> flushed == 1 [C15.buf.flush.once]
 //@   ensures len(s.receiveBuffer) == 0 [C15.buf.received.cleared]
+
+// ---------------------------------------------------------------------------------------------
+// C08 (Socket.IO side). Client: on every CONNECT reply `recovered` is set to whether a private session id was
+// known AND the server answered with that same id - so a fresh session is never reported as recovered.
+//@ func (*clientSocket).onConnect
+//@   opt safety off
+//@   ghost rec int = 0 - 1
+//@   ghost hadpid bool = false
+//@   ghost mypid string = ""
+//@   callsite decode skip
+//@   callsite (*clientSocket).pid
+//@     updateafter hadpid = result1
+//@     updateafter mypid = result0
+//@   callsite (*clientSocket).setRecovered
+//@     update rec = arg0 ? 1 : 0
+//@   callsite (*clientSocket).emitBuffered skip
+//@     requires rec == ((v.PID != "" && hadpid && mypid == v.PID) ? 1 : 0) [C08.cli.recovered]
+//@     requires s.state == clientSocketConnStateConnected [C15.connected.before.flush]
+
+// Server: the session is saved (id, private id, rooms as they are now) BEFORE the socket leaves its rooms; a socket
+// that had connected leaves all rooms, the namespace and the connection, is marked disconnected, and only then the
+// disconnect handlers run - exactly once each; a socket that had not connected triggers nothing.
+//@ func (*serverSocket).onClose$1
+//@   opt safety off
+//@   requires s != nil && s.disconnectHandlers != s.disconnectingHandlers
+//@   ghost wasconn bool = false
+//@   ghost recov bool = false
+//@   ghost persisted int = 0
+//@   ghost left int = 0
+//@   ghost nsprem int = 0
+//@   ghost connrem int = 0
+//@   ghost disc int = 0
+//@   ghost discing int = 0
+//@   callsite (*serverSocket).Connected
+//@     updateafter wasconn = result
+//@   callsite Contains
+//@     requires arg0[0] == reason [C08.persist.reason]
+//@     updateafter recov = result
+//@   callsite Adapter.PersistSession
+//@     requires left == 0 && arg0 != nil && arg0.SID == old(s.id) && arg0.PID == old(s.pid) [C08.persist.before.leave]
+//@     update persisted = persisted + 1
+//@   callsite (*serverSocket).leaveAll
+//@     requires discing == 1 [C06.sio.disconnecting.first]
+//@     update left = left + 1
+//@   callsite (*Namespace).remove
+//@     requires arg0 == s [C06.sio.nsp.remove]
+//@     update nsprem = nsprem + 1
+//@   callsite (*serverConn).remove
+//@     requires arg0 == s [C06.sio.conn.remove]
+//@     update connrem = connrem + 1
+//@   callsite forEach
+//@     requires recv == old(s.disconnectHandlers) ==> left == 1 && nsprem == 1 && connrem == 1 && !s.connected [C06.sio.order]
+//@     update disc = disc + (recv == old(s.disconnectHandlers) ? 1 : 0)
+//@     update discing = discing + (recv == old(s.disconnectingHandlers) ? 1 : 0)
+//@   ensures wasconn ==> left == 1 && nsprem == 1 && connrem == 1 && disc == 1 && discing == 1 [C06.sio.clean]
+//@   ensures !wasconn ==> left == 0 && disc == 0 && discing == 0 && persisted == 0 [C06.sio.notconnected]
+//@   ensures wasconn && old(s.server.connectionStateRecovery.Enabled) && recov ==> persisted == 1 [C08.persist.when]
+//@   ensures persisted <= 1 && (persisted == 1 ==> recov && old(s.server.connectionStateRecovery.Enabled)) [C08.persist.only.recoverable]
